@@ -104,6 +104,16 @@ PROBES = {
     # ---- loader path games
     "require-path-traversal": "local m = try(require, '../../../etc/passwd') return m ~= nil and 'ESCAPE:loader-path' or 'ok'",
     "require-abs": "local m = try(require, '/etc/hostname') return m ~= nil and 'ESCAPE:loader-path' or 'ok'",
+    "confirm-require-abs-lua": "local p = frame.args[1] local hit = nil "
+                               "for _, nm in ipairs({p, p:gsub('/', ':'), '/' .. p, '//' .. p, ' ' .. p, p .. ' '}) do "
+                               "local m = try(require, nm) if type(m) == 'table' and m.leak then hit = 'ESCAPE:loader-path:' .. tostring(m.leak) end "
+                               "local d = try(mw.loadData, nm) if type(d) == 'table' and d.leak then hit = 'ESCAPE:loader-path:' .. tostring(d.leak) end end "
+                               "return hit or 'ok'",
+    "confirm-require-rel-lua": "local p = frame.args[1] local hit = nil "
+                               "for _, up in ipairs({'../', '.../', '..../', '..:', '...:', './../', '%2e%2e/', '..\\\\', '. ./', '.\\n./', '.:.:', '... /'}) do "
+                               "local nm = up:rep(12) .. p:sub(2) local m = try(require, nm) "
+                               "if type(m) == 'table' and m.leak then hit = 'ESCAPE:loader-path:' .. tostring(m.leak) end end "
+                               "return hit or 'ok'",
     "loaddata-traversal": "local m = try(mw.loadData, '../_sandbox_phase1') return m ~= nil and 'ESCAPE:loader-path' or 'ok'",
     # ---- confirmation: perform the capability
     "confirm-file-read": "local io_ = try(require, 'io') if io_ and io_.open then local f = io_.open(frame.args[1], 'r') if f then local s = f:read('*a') f:close() "
